@@ -32,6 +32,7 @@ type chunkedReader struct {
 	calls  int
 	closed bool
 	done   bool
+	erred  bool // the scripted error was actually delivered
 }
 
 func newChunkedReader(ts []*colType, rows []row, script []chunk) *chunkedReader {
@@ -50,6 +51,7 @@ func (c *chunkedReader) Read(ctx context.Context, out frame.Frame) (int, error) 
 	c.call++
 	if ch.Err {
 		c.done = true
+		c.erred = true
 		return 0, errInjected
 	}
 	n := ch.N
